@@ -225,6 +225,35 @@ def reformat_parsed_text(PL):
     return h
 
 
+
+NAME_LISTS = [["Cuma", "Cumartesi", "Pazar"], ["Cumartesi", "Cuma", "Pazar"], ["Me", "Met", "Metheven"], ["ab", "a", "abc"]]
+
+
+@lemma({"k": int, "tail": str}, params=[0, 1, 2, 3], budget=120, per_path=30,
+       bounds="the text-name matcher behind MMM/MMMM/ddd/dddd parsing (_SteppedPatternBuilder.__find_longest_match) over name lists in which one "
+              "name is a proper prefix of another (as in tr-TR Cuma / Cumartesi), in either order: for a text = any listed name + any tail of <= 2 "
+              "characters, the match is the LONGEST listed name that is a case-insensitive prefix of the text")
+def longest_text_match(P):
+    from pyoda_time.text._value_cursor import _ValueCursor
+    from pyoda_time.text.patterns._stepped_pattern_builder import _SteppedPatternBuilder
+    find = _SteppedPatternBuilder._SteppedPatternBuilder__find_longest_match
+    names = NAME_LISTS[P]
+
+    def h(k, tail):
+        assume(0 <= k < len(names))
+        assume(len(tail) <= 2)
+        text = names[int(k)] + tail
+        cur = _ValueCursor(text)
+        cur.move(0)
+        best, length = find(cur, names, -1, 0)
+        want, wlen = -1, 0
+        for i, c in enumerate(names):
+            if len(c) > wlen and len(text) >= len(c) and text[:len(c)].lower() == c.lower():
+                want, wlen = i, len(c)
+        return best == want and length == wlen
+    return h
+
+
 from props import fpk  # noqa: E402
 
 fpk.declare()
